@@ -1,3 +1,4 @@
+#![cfg_attr(feature = "nightly", feature(allocator_api))]
 mod common;
 mod sodium;
 mod c12;
@@ -10,6 +11,8 @@ mod c05;
 mod c16;
 mod c11;
 mod c06;
+#[cfg(feature = "nightly")]
+mod prot;
 
 #[global_allocator]
 static GLOBAL: c04::Counting = c04::Counting;
@@ -39,6 +42,12 @@ fn main() {
         "C11" => c11::run(&mut out, tier, seed),
         "C06" => c06::run_c06(&mut out, tier, seed),
         "C13" => c06::run_c13(&mut out, tier, seed),
+        #[cfg(feature = "nightly")]
+        "C14" => prot::run_c14(&mut out, tier, seed),
+        #[cfg(feature = "nightly")]
+        "C15" => prot::run_c15(&mut out, tier, seed),
+        #[cfg(feature = "nightly")]
+        "C19" => prot::run_c19(&mut out, tier, seed),
         _ => { eprintln!("unknown property {}", prop); std::process::exit(2); }
     }
     out.finish(prop, tier, seed);
